@@ -102,9 +102,21 @@ def check_classes(name, sp, fx, stats):
     names = [x['name'] for x in sp['associations']]
     for x in sp['associations']:
         stats['association_classes'] = stats.get('association_classes', 0) + 1
+        def lookup(y, flip=False):
+            l, r = ('right', 'left') if flip else ('left', 'right')
+            args = (y['name'], y[l + 'Asset'], y[r + 'Asset'])
+            twice = sum(1 for z in sp['associations'] if z['name'] == y['name'] and
+                        {z['leftAsset'], z['rightAsset']} == {y['leftAsset'], y['rightAsset']}) > 1
+            if twice:
+                # name and asset types do not identify the association: the field names are part of the question
+                try:
+                    return fx.factory.get_association_by_signature(*args, y[l + 'Field'], y[r + 'Field'])
+                except TypeError:
+                    pass
+            return fx.factory.get_association_by_signature(*args)
         try:
-            cls = fx.factory.get_association_by_signature(x['name'], x['leftAsset'], x['rightAsset'])
-            flipped = fx.factory.get_association_by_signature(x['name'], x['rightAsset'], x['leftAsset'])
+            cls = lookup(x)
+            flipped = lookup(x, True)
         except Exception as e:  # noqa: BLE001
             V(f'signature_lookup_raised:{type(e).__name__}', f'get_association_by_signature({x["name"]},...) raised {e}')
             continue
@@ -113,15 +125,14 @@ def check_classes(name, sp, fx, stats):
             continue
         same_pair_twice = sum(1 for y in sp['associations'] if y['name'] == x['name'] and
                               {y['leftAsset'], y['rightAsset']} == {x['leftAsset'], x['rightAsset']}) > 1
-        if flipped != cls and not same_pair_twice:
+        if flipped != cls:
             V('signature_lookup_orientation', 'signature lookup depends on the orientation', expected=cls, observed=flipped)
         obj = getattr(ns, cls)()
         fields = sorted(obj._properties.keys())
         if fields != sorted([x['leftField'], x['rightField']]):
             V('association_fields', f'{cls} has fields {fields}', expected=sorted([x['leftField'], x['rightField']]), observed=fields)
         if names.count(x['name']) > 1:
-            others = [fx.factory.get_association_by_signature(y['name'], y['leftAsset'], y['rightAsset'])
-                      for y in sp['associations'] if y['name'] == x['name'] and y is not x]
+            others = [lookup(y) for y in sp['associations'] if y['name'] == x['name'] and y is not x]
             if cls in others:
                 V('same_named_associations_collapse', f'associations named {x["name"]} are not distinguishable', observed=[cls] + others)
     return viols
@@ -172,6 +183,10 @@ def job(job):
     if name == 'coreLang':
         table = [ac for ac in table if any(L.is_sub(t, ac['lt']) for t in concrete) and any(L.is_sub(t, ac['rt']) for t in concrete)][:12]
     for ac in table:
+        if not hasattr(fx.ns, ac['cls']):
+            viols.append(common.Violation('association_class_missing', f'no class {ac["cls"]} for association {ac["lf"]}/{ac["rf"]}',
+                                          case={'language': name, 'association': ac['cls']}))
+            continue
         # a fresh model per association class: four instances of every type
         m = Model('m', fx.factory)
         pool, objs = [], {}
